@@ -141,7 +141,7 @@ def main(tier):
             unpred += m["unpredictable"]
             rt_ok += m["roundtrip_ok"]
             rt_diff += m["roundtrip_diff"]
-            if m["cases"] > m["declared"] or m["cases"] == 0:
+            if m["cases"] + m["dups"] != m["declared"] or m["cases"] == 0:
                 complete = False
             if m["equivalent"]:
                 notes.setdefault("equivalent_encodings_accepted", {})[n] = {
@@ -156,13 +156,14 @@ def main(tier):
                             {"method": n, "cases": m["cases"]})
         sem_cases = sem_nontrivial = sem_refused = 0
         for n, s in sstats.items():
+            m = rep["methods"].get(n)
+            if not m or m["cases"] + m["dups"] != m["declared"] or m["cases"] != s["cases"]:
+                complete = False
             per_method[n] = s["cases"]
             sem_cases += s["cases"]
             sem_nontrivial += s["nontrivial"]
             sem_refused += s["refused"]
         declared_missing = [e["name"] for e in joined["covered"] if e["name"] not in per_method]
-        if only:
-            c.coverage_restricted = sorted(only)
         if declared_missing:
             complete = False
         picks = ["add_ext", "and_imm", "ldur", "stp_pre", "tbz", "casal", "ubfm_w", "fcvtzs_wd"]
@@ -180,16 +181,25 @@ def main(tier):
         c.coverage = {
             "evaluations": evaluations + sem_cases + twin.get("cases", 0),
             "distinct_nontrivial": nontrivial + sem_nontrivial + twin.get("distinct_nontrivial", 0),
-            "rule": "case = (public method of AssemblerArm64, operand tuple); every method's declared operand space is a "
-                    "union of cartesian products of explicit value lists (registers R0..R30+REG_ZERO+REG_SP, neon 0..31 "
-                    "+ the non-constructible 32, every enum variant, immediates/offsets/shift amounts at both ends of "
-                    "every field with their non-encodable neighbours, all 5334/1302 bitmask immediates with neighbours, "
-                    "label distances at the ends of every branch range) and is enumerated completely; tuples shared by "
-                    "two products of one method are executed once.  non-trivial = accepted case whose word differs from "
-                    "the word of the method's first accepted tuple (sequences: whose words differ from nothing emitted / "
-                    "all-zero operands).  Oracle: llvm-mc 14 assembles the requested instruction text, words must be "
-                    "equal; llvm-mc disassembles dora's word and re-assembles it (round trip); panic = refusal, demanded "
-                    "for every tuple outside the encodable set (spec predicate or llvm-mc rejects the text).",
+            "rule": "case = (public method of AssemblerArm64, operand tuple). Every method's declared operand space is a "
+                    "union of cartesian products of explicit value lists -- registers R0..R30 + REG_ZERO + REG_SP, neon "
+                    "0..31 + the non-constructible 32, every variant of Cond/Extend/Shift, immediates / offsets / shift "
+                    "amounts / bit positions over their whole field (or both ends of it) with the non-encodable "
+                    "neighbours, all 5334 (64-bit) and 1302 (32-bit) bitmask immediates with their +-1 neighbours, label "
+                    "distances at both ends of every branch range and of the longer fall-back sequence -- and every "
+                    "product is enumerated completely (tuples shared by two products of a method run once). quick: one "
+                    "register position complete, the others on {0,1,15,16,30}, plus all zr/sp combinations over "
+                    "{0,30,zr,sp}, plus complete immediate domains on registers {0,30}; thorough: complete register "
+                    "products (33^3, 33^4) with boundary immediates and complete immediate domains with boundary "
+                    "registers, up to 1.2e6 tuples per product. Oracle: llvm-mc 14 assembles the requested "
+                    "instruction text and the words must be bit-equal; a word that is not bit-equal is disassembled "
+                    "and classified; the quick products additionally get the full round trip (disassemble + "
+                    "re-assemble every word) in the thorough tier; panic = refusal, demanded for every tuple outside "
+                    "the encodable set (spec predicate false or llvm-mc rejects the text). Sequences and label "
+                    "branches are decoded by llvm-mc and evaluated by an interpreter (constant / address / branch "
+                    "target). Dora twin: same-named methods of arm64.dora on a reduced product, word compared with "
+                    "llvm-mc's. non-trivial = accepted case whose word(s) differ from the word(s) of the method's first "
+                    "accepted tuple in enumeration order (all operands at the first value of their domains).",
             "samples": samples,
             "exhaustive": bool(complete and twin.get("complete", True)),
             "methods_parsed": len(parsed["methods"]) + len(parsed["others"]),
@@ -218,9 +228,10 @@ def main(tier):
         if only:
             c.coverage["restricted_to_methods"] = sorted(only)
         if joined["uncovered"]:
-            for n, why in joined["uncovered"]:
-                c.violation("c08:%s:uncovered" % n, "public function %s of arm64.rs has no usable spec entry: %s" % (n, why),
-                            {"method": n, "reason": why})
+            # not a defect of the assembler: reported in the evidence (and the run is not exhaustive)
+            c.coverage["exhaustive"] = False
+            vcommon.log("C08: public functions without a usable spec entry (listed as `uncovered`): " +
+                        ", ".join(n for n, _ in joined["uncovered"]))
         c.assumptions = [
             "llvm-mc 14 (-triple=aarch64 -mattr=%s) is the reference encoder/decoder" % MATTR,
             "the requested instruction of a method is the text template of engines/encspace/arm64_spec.py (hand-written "
@@ -251,6 +262,22 @@ def replay(path):
     full = G.join(parsed)
     binary = build_driver(repo, parsed, full)
     scratch = vcommon.scratch_dir("c08r")
+    if str(obj.get("key", "")).startswith("c08:twin:"):
+        # re-run the twin comparison for this method (quick product)
+        class Collect:
+            found = []
+
+            def violation(self, key, what, replay_obj=None, replay_name=None):
+                self.found.append(key)
+                print("  %s :: %s" % (key, what))
+                return True
+        try:
+            col = Collect()
+            TWIN.run(col, "quick", scratch, repo, binary, parsed, full, LLVM, MATTR, pretty_ops, only={m})
+            print("replay result:", "still differs" if obj["key"] in col.found else "case passes now")
+            return 1 if obj["key"] in col.found else 0
+        finally:
+            shutil.rmtree(scratch, ignore_errors=True)
     try:
         plan = os.path.join(scratch, "plan.txt")
         with open(plan, "w") as f:
